@@ -127,23 +127,34 @@ Proof.
 Qed.
 
 (* ------------------------------------------------------------------ the generated helpers *)
+(* The proofs that unfold the GENERATED bodies normalise them first (mod-of-sum idempotence, cell
+   coordinates), so that behaviour-preserving rewrites of the Python helpers (an intermediate variable
+   x = n % n_horizontal, reordered statements, renamed variables) do not break them. *)
+Ltac mod_norm :=
+  rewrite ?Zplus_mod_idemp_l, ?Zplus_mod_idemp_r, ?Zminus_mod_idemp_l, ?Zminus_mod_idemp_r, ?Z.mod_mod by lia.
+Lemma mod_add_cell nx my t : nx <> 0 -> (my * nx + t) mod nx = t mod nx.
+Proof. intros H. rewrite Z.add_comm. now apply Z.mod_add. Qed.
+
 (* _next_cell_number moves cell (mx, my) to ((mx+cx) mod nx, (my+cy) mod ny) *)
 Lemma next_cell_number_spec nx ny mx my cx cy :
   1 <= nx -> 0 <= mx < nx ->
   py_next_cell_number nx ny (my * nx + mx) (cx, cy) = ((my + cy) mod ny) * nx + (mx + cx) mod nx.
 Proof.
-  intros Hx Hm. unfold py_next_cell_number. cbn [fst snd].
-  rewrite cell_div by lia.
-  replace (my * nx + mx + cx) with (mx + cx + my * nx) by lia.
-  rewrite Z.mod_add by lia. reflexivity.
+  intros Hx Hm. unfold py_next_cell_number. cbn [fst snd]. cbv zeta.
+  repeat first [ rewrite cell_div by lia | rewrite cell_mod by lia ].
+  rewrite <- ?Z.add_assoc.
+  repeat first [ rewrite mod_add_cell by lia | progress mod_norm ].
+  first [ reflexivity | lia | ring ].
 Qed.
 
 Lemma next_cell_number_range nx ny n c :
   1 <= nx -> 1 <= ny -> 0 <= py_next_cell_number nx ny n c < nx * ny.
 Proof.
-  intros Hx Hy. unfold py_next_cell_number.
-  pose proof (Z.mod_pos_bound (n / nx + snd c) ny ltac:(lia)).
-  pose proof (Z.mod_pos_bound (n + fst c) nx ltac:(lia)). nia.
+  intros Hx Hy. destruct c as [cx cy].
+  rewrite (Z.div_mod n nx) by lia. rewrite (Z.mul_comm nx (n / nx)).
+  rewrite next_cell_number_spec by (try apply Z.mod_pos_bound; lia).
+  pose proof (Z.mod_pos_bound (n / nx + cy) ny ltac:(lia)).
+  pose proof (Z.mod_pos_bound (n mod nx + cx) nx ltac:(lia)). nia.
 Qed.
 
 (* wrap indicator: for a step c in {-1,0,1} from x in [0,n), (x + c) / n is -1, 0 or +1 *)
@@ -163,10 +174,10 @@ Lemma crossing_spec nx ny mx my cx cy :
   1 <= nx -> 1 <= ny -> 0 <= mx < nx -> 0 <= my < ny -> -1 <= cx <= 1 -> -1 <= cy <= 1 ->
   py_crossing nx ny (my * nx + mx) (cx, cy) = ((mx + cx) / nx, (my + cy) / ny).
 Proof.
-  intros Hx Hy Hmx Hmy Hcx Hcy. unfold py_crossing. cbn [fst snd].
-  rewrite cell_div, cell_mod by lia.
-  rewrite (Z.div_small mx nx), (Z.div_small my ny) by lia.
-  rewrite (wrap_indicator nx mx cx), (wrap_indicator ny my cy) by lia.
+  intros Hx Hy Hmx Hmy Hcx Hcy. unfold py_crossing. cbn [fst snd]. cbv zeta.
+  rewrite ?cell_div, ?cell_mod by lia.
+  rewrite ?(Z.div_small mx nx), ?(Z.div_small my ny), ?(Z.mod_small mx nx), ?(Z.mod_small my ny) by lia.
+  rewrite ?(wrap_indicator nx mx cx), ?(wrap_indicator ny my cy) by lia.
   unfold b2z. f_equal.
   - destruct (Z.ltb_spec (mx + cx) 0); [simpl; lia|].
     destruct (Z.leb_spec nx (mx + cx)); simpl; lia.
